@@ -10,7 +10,7 @@ repositories.  A published object is a name with an abstract value (payload of a
 router certificate, or the resources of a child certificate).  Import-free (model files only).
 -/
 import KrillModel.Ca.Events
-namespace KM.Ca
+namespace KM.CaK
 open KM.Res KM.AMap
 
 /-- Name of a published object (`ObjectName`): products by kind and identifier, child
@@ -184,4 +184,4 @@ example :
     (Objs.stepAll [] [.key 0 (.pendingToActive k1), .key 0 (.received 9 k1.cert)]) = .error .unknownKey := by
   decide
 
-end KM.Ca
+end KM.CaK
